@@ -62,7 +62,7 @@ def loader_traces(events):
     by = {}
     for e in events:
         if 'loader' in e:
-            by.setdefault(e['loader'], []).append({'op': e['op'], 'res': e['res'], 'n': e['n'], 'twin': True})
+            by.setdefault(e['loader'], []).append({'op': e['op'], 'res': e['res'], 'n': e['n'], 'twin': True, 'fresh': True})
     return list(by.values())
 
 
